@@ -101,9 +101,32 @@ pub fn run_case(env: &Env, ctx: &mut Ctx, idx: u64) {
         }
         lists.push(l);
     }
-    // reference results: each call alone on a fresh thread, sequentially, no noise
+    // half of the rounds: every thread starts with the same call on a text that this process has never seen
+    // (a long macro body with the round's number in it): first use of anything keyed by content happens under contention
+    if ctx.tier != Tier::Tiny && rng.chance(1, 2) {
+        let uid = format!("{}_{}", ctx.seed, idx);
+        // several long bodies in one text: several first uses per call
+        let mut src = String::new();
+        for j in 0..6 {
+            let body: String = (0..24).map(|k| format!("(a{}_{}_{} + {}) ^ ", k, j, uid, k)).collect::<String>() + "1'b0";
+            src.push_str(&format!("`define LONG{j}_{u}(p) ({b}) /* {u} */ + p\n", j = j, u = uid, b = body));
+        }
+        src.push_str(&format!("module m{u};\n", u = uid));
+        for j in 0..6 {
+            src.push_str(&format!("assign x{j} = `LONG{j}_{u}(y{j});\n", j = j, u = uid));
+        }
+        src.push_str("endmodule\n");
+        let entry = if rng.chance(1, 2) { Entry::PpStr } else { Entry::ParseSvStr };
+        for l in lists.iter_mut() {
+            l.insert(0, Call { entry, src: src.clone(), path: None, include_paths: vec![] });
+        }
+        ctx.count("rounds_with_first_use_under_contention", 1);
+    }
+    // reference results: each call alone on a fresh thread, sequentially, no noise; in half of the rounds they are
+    // taken after the concurrent run, so that the concurrent run is the first to see the round's inputs
     hooks::set_yield_hook(None);
-    let refs: Vec<Vec<Res>> = lists.iter().map(|l| l.iter().map(exec_fresh).collect()).collect();
+    let refs_first = rng.chance(1, 2);
+    let mut refs: Vec<Vec<Res>> = if refs_first { lists.iter().map(|l| l.iter().map(exec_fresh).collect()).collect() } else { Vec::new() };
 
     hooks::set_yield_hook(Some(yield_hook));
     YIELDS.store(0, Ordering::Relaxed);
@@ -137,6 +160,10 @@ pub fn run_case(env: &Env, ctx: &mut Ctx, idx: u64) {
     let results: Vec<Vec<(Res, Option<(usize, usize, usize)>, Vec<usize>)>> =
         handles.into_iter().map(|h| h.join().unwrap_or_default()).collect();
     hooks::set_yield_hook(None);
+    if !refs_first {
+        refs = lists.iter().map(|l| l.iter().map(exec_fresh).collect()).collect();
+        ctx.count("rounds_with_references_taken_afterwards", 1);
+    }
 
     ctx.count("rounds", 1);
     ctx.count(&format!("rounds_with_{}_threads", nthreads), 1);
